@@ -1671,3 +1671,50 @@ def r_dense_into_kron(ctx, f: FunctionInfo, rule="R-SPARSE", chain=None):
                f"(from `{unparse(producers[0])[:50]}`); np.kron does not build the Kronecker product of sparse operands and returns an array of the wrong shape", n, chain=chain)
     else:
         ctx.ob(rule, f, key, True, f"{sites} kron / tensor call(s), {len(producers)} possibly-sparse producer(s), none connected", chain=chain)
+
+
+# ---------------------------------------------------------------------------------------------
+_NPMATRIX_MAKERS = ("csc_matrix", "csr_matrix", "lil_matrix", "coo_matrix", "dia_matrix", "dok_matrix", "bsr_matrix", "matrix", "asmatrix", "mat", "bmat")
+
+
+def r_no_npmatrix(ctx, f: FunctionInfo, rule="R-KIND", chain=None):
+    """A function documented to return an ndarray must not return numpy.matrix: scipy's *_matrix classes turn `S + dense`,
+    `S += dense` and `.todense()` into np.matrix, whose indexing keeps two dimensions (`m[0]` is 1 x n, reshape to more than two
+    axes raises) -- partial_trace, is_trace_preserving etc. fail on it.  Flags such a maker whose value flows to a return
+    without `.toarray()` / `np.asarray`."""
+    m = ctx.model
+    og = origins(f)
+    makers = []
+    for n in walk_no_nested(f.node):
+        if isinstance(n, ast.Call):
+            k = m.resolve_call(f, n).key or ""
+            tail = k.rsplit(".", 1)[-1]
+            if (k.startswith("scipy.sparse") and tail in _NPMATRIX_MAKERS) or k in ("numpy.matrix", "numpy.asmatrix", "numpy.mat", "numpy.bmat"):
+                makers.append(n)
+            elif isinstance(n.func, ast.Attribute) and n.func.attr == "todense":
+                makers.append(n)
+    tainted = set()
+    mid = {id(x) for x in makers}
+    for n in walk_no_nested(f.node):
+        if isinstance(n, (ast.Assign, ast.AugAssign)) and any(id(x) in mid for x in ast.walk(n.value)):
+            tg = n.targets if isinstance(n, ast.Assign) else [n.target]
+            for t in tg:
+                tainted |= {x.id for x in ast.walk(t) if isinstance(x, ast.Name)}
+    bad = None
+    for n in walk_no_nested(f.node):
+        if isinstance(n, ast.Return) and n.value is not None:
+            for e in (n.value.elts if isinstance(n.value, ast.Tuple) else [n.value]):
+                while isinstance(e, ast.IfExp):
+                    e = e.body
+                if isinstance(e, ast.Call) and ((isinstance(e.func, ast.Attribute) and e.func.attr in ("toarray", "A")) or
+                                                (m.resolve_call(f, e).key or "") in ("numpy.asarray", "numpy.array")):
+                    continue
+                names = {x.id for x in ast.walk(e) if isinstance(x, ast.Name)}
+                if any(id(x) in mid for x in ast.walk(e)) or (names & tainted) or (og.of(e) & tainted and isinstance(e, ast.Name)):
+                    bad = bad or (n, e)
+    key = "returned arrays are ndarrays, never numpy.matrix (no scipy *_matrix / np.matrix value reaches a return)"
+    if bad is not None:
+        ctx.ob(rule, f, key, False, f"`{unparse(makers[0])[:50]}` makes a scipy sparse *matrix* / np.matrix; adding dense arrays to it yields numpy.matrix, which "
+               f"`{unparse(bad[0])[:50]}` returns: 2-D-only semantics break partial_trace / is_trace_preserving on the result (\"shape too large to be a matrix\")", bad[0], chain=chain)
+    else:
+        ctx.ob(rule, f, key, True, f"{len(makers)} matrix-class maker(s), none reaches a return", chain=chain)
